@@ -20,6 +20,7 @@ Definition model_cmp (c : pcase) : option bool :=
   | PCInts v r => cmp (eqb_list Z.eqb) (parse_integers true v) r
   | PCNumber v r => cmp Z.eqb (parse_integer_number true v) r
   | PCRange op v r => cmp (fun a b : Z * Z => (fst a =? fst b) && (snd a =? snd b)) (parse_range op true v) r
+  | PCIntsNF v r => cmp (eqb_list Z.eqb) (parse_integers false v) r
   | PCRangeNF op v r => cmp (fun a b : Z * Z => (fst a =? fst b) && (snd a =? snd b)) (parse_range op false v) r
   | PCNil v r => cmp Bool.eqb (nil_interface v) r
   | PCAcDict v r => cmp (eqb_list text_eqb) (ac_parse_dict v) r
